@@ -267,7 +267,7 @@ static int step(int e)
         else if (k < K_MAP0) { if (one_write(e, pdo, 2, 0, CNTV[k - K_CNT0])) return MC_OK; }
         else { if (one_write(e, pdo, 3, SUBK[(k - K_MAP0) / NMAPV], MAPV[(k - K_MAP0) % NMAPV])) return MC_OK; }
     }
-    (void)CONodeGetErr(&Node);
+    nc_poll();                   
     /* stored configuration == model (a refused write changes nothing) */
     {
         const MP *r = &M.p[0], *t = &M.p[1];
